@@ -144,6 +144,13 @@ COFFEE,Coffee After Bad,Food,Cafe,
 RENT[amount>100],Rent Csv,Housing,Rent,
 ''',
 }
+# rule files as other programs save them: UTF-16 with a byte-order mark (Notepad "Unicode"), Windows-1252, UTF-8 with a BOM.
+# Whatever the loader makes of each of them, it makes the same of it every time - and of the files loaded after it.
+_ENC_TEXT = '[Cafe]\nmatch: contains("COFFEE")\ncategory: Food\nsubcategory: Caf\u00e9\n\n[Netflix]\nmatch: contains("NETFLIX")\ncategory: Fun\nsubcategory: TV\n'
+RULE_FILES['u16.rules'] = b'\xff\xfe' + _ENC_TEXT.encode('utf-16-le')
+RULE_FILES['w1252.rules'] = _ENC_TEXT.encode('cp1252')
+RULE_FILES['bom8.rules'] = b'\xef\xbb\xbf' + _ENC_TEXT.encode('utf-8')
+RULE_FILES['cr.rules'] = _ENC_TEXT.replace('\u00e9', 'e').replace('\n', '\r')
 GEN_CSV_PATTERNS = ['UBER', 'UBER.*EATS', 'COFFEE', '*BAD', 'NETFLIX', 'COFFEE(', 'RENT[amount>100]', 'contains("UBER") and amount > 10', '[', 'UBER|COFFEE',
                     'UBER[date:last30days]', 'COFFEE[date:last60days]', 'NETFLIX[date:last365days]']
 # the days a long-lived process may live to see (CLOCK operation): chosen around the transaction dates so that the
@@ -504,6 +511,27 @@ CMD_BUDGETS = {
                 'config/merchants.rules': CMD_RULES[0].replace('tags: income\n', ''), 'config/views.rules': '[Food]\nfilter: category == "Food"\n\n[Large]\nfilter: total > 10\n',
                 'data/card.csv': _CARD},
 }
+CMD_BUDGETS['b_refund'] = {
+    'config/settings.yaml': 'year: 2025\n' + _SRC + 'merchants_file: config/merchants.rules\nviews_file: config/views.rules\n',
+    'config/merchants.rules': '[Netflix]\nmatch: contains("NETFLIX")\ncategory: Fun\nsubcategory: TV\ntags: refund\n\n[Coffee]\nmatch: contains("COFFEE")\n'
+                              'category: Food\nsubcategory: Coffee\ntags: business, recurring\n\n[Uber]\nmatch: contains("UBER")\ncategory: Transport\nsubcategory: Ride\ntags: income\n',
+    'config/views.rules': '[Everything]\nfilter: total > 0\n\n[Fun]\nfilter: category == "Fun"\n',
+    'data/card.csv': _CARD, 'data/semi.csv': 'Date;Description;Amount\n01/05/2025;NETFLIX r1;15.99\n01/06/2025;COFFEE r2;4.50\n',
+    'data/tabs.tsv': 'Date\tDescription\tAmount\n01/05/2025\tNETFLIX r1\t15.99\n'}
+# sequences of different commands over one budget / one process, stratified over the run index (every one of them occurs in any
+# 10 * len(CMD_SEQUENCES) consecutive runs)
+CMD_SEQUENCES = [
+    [('b_csv', ['up', '{cfg}', '--migrate', '--format', 'json']), ('b_csv', ['up', '{cfg}', '--format', 'json']), ('b_csv', ['explain', '{cfg}'])],
+    [('b_csv', ['up', '{cfg}', '--format', 'json']), ('b_csv', ['up', '{cfg}', '--migrate', '-q']), ('b_csv', ['up', '{cfg}', '--format', 'json']), ('b_csv', ['discover', '{cfg}', '--format', 'json'])],
+    [('b_csv_nodata', ['up', '{cfg}', '--migrate', '--format', 'json']), ('b_rules', ['up', '{cfg}', '--format', 'json']), ('b_csv_nodata', ['up', '{cfg}', '--format', 'json'])],
+    [('b_refund', ['diag', '{cfg}']), ('b_refund', ['up', '{cfg}', '--format', 'json']), ('b_refund', ['up', '{cfg}', '--summary'])],
+    [('b_refund', ['inspect', '{budget}/data/semi.csv']), ('b_refund', ['up', '{cfg}', '--format', 'json']), ('b_rules', ['up', '{cfg}', '--format', 'json'])],
+    [('b_refund', ['inspect', '{budget}/data/tabs.tsv']), ('b_views', ['up', '{cfg}', '--format', 'json']), ('b_refund', ['inspect', '{budget}/data/card.csv'])],
+    [('b_rules', ['explain', '{cfg}']), ('b_csv', ['up', '{cfg}', '--format', 'json']), ('b_rules2', ['discover', '{cfg}', '--format', 'json']), ('b_csv', ['explain', 'Netflix', '{cfg}'])],
+    [('b_csv', ['init', '{budget}']), ('b_csv', ['up', '{cfg}', '--format', 'json']), ('b_none', ['init', '{budget}']), ('b_none', ['up', '{cfg}', '--format', 'json'])],
+    [('b_views', ['up', '{cfg}', '--format', 'json']), ('b_views', ['diag', '{cfg}', '--format', 'json']), ('b_refund', ['up', '{cfg}', '--format', 'json']), ('b_views', ['up', '{cfg}', '--format', 'json'])],
+    [('b_missing', ['up', '{cfg}', '--format', 'json']), ('b_rules', ['up', '{cfg}', '--format', 'json']), ('b_missing', ['explain', '{cfg}']), ('b_rules2', ['up', '{cfg}', '--format', 'json'])],
+]
 CMD_ARGV = [['up', '{cfg}', '--format', 'json'], ['up', '{cfg}', '--format', 'json', '-v'], ['up', '{cfg}', '--format', 'summary'],
             ['explain', '{cfg}'], ['explain', 'Netflix', '{cfg}'], ['explain', 'COFFEE SHOP', '{cfg}', '--amount', '4.5'],
             ['discover', '{cfg}', '--format', 'json'], ['run', '{cfg}', '--format', 'markdown'],
@@ -573,10 +601,26 @@ def gen_arg_history(rng, i):
     return ops
 
 
+def gen_seq_history(rng, i):
+    files = {}
+    for b, fs in CMD_BUDGETS.items():
+        for r, t in fs.items():
+            files['%s/%s' % (b, r)] = t
+    ops = [{'op': 'FILES', 'files': files}]
+    for b, argv in CMD_SEQUENCES[(i // 10) % len(CMD_SEQUENCES)]:
+        ops.append({'op': 'CMD', 'budget': b, 'argv': argv})
+    return ops
+
+
 def gen_history(rng, tier, i=None):
     r0 = rng.random()
     if i is not None and i % 10 == 7:
-        return gen_arg_history(rng, i)
+        ops = gen_arg_history(rng, i)
+        if (i // 10) % 3 == 0:
+            ops[0] = dict(ops[0], stderr_broken=True)      # (group 9 - patterns that make Python warn on stderr - falls on such a run)
+        return ops
+    if i is not None and i % 10 == 4:
+        return gen_seq_history(rng, i)
     if r0 < 0.08:
         return gen_clock_history(rng)
     if r0 < 0.18:
